@@ -269,7 +269,7 @@ func (cf *clientFormat) writePacketRTP(pkt *rtp.Packet, ntp time.Time) error {
 
 	maxPlainPacketSize := cf.cm.c.MaxPacketSize
 	if cf.cm.srtpOutCtx != nil {
-		maxPlainPacketSize -= srtpOverhead
+		maxPlainPacketSize -= srtpOverhead + len(cf.cm.srtpOutCtx.mki)
 	}
 
 	plain := make([]byte, maxPlainPacketSize)
